@@ -140,6 +140,13 @@ def run_check(prop, tier='quick', seed=0, replay=None):
             proof_broken.append('no theorem found in %s' % prop.theorem_file)
     if forb:
         proof_broken.append('forbidden constructs in the development: %s' % forb[:5])
+    chk_note = None
+    if tier == 'thorough' and th['ok']:
+        okc, outc = coqrun.coqchk(prop.theorem_file)
+        chk_note = outc[-1200:]
+        obligations += 1
+        if okc: discharged += 1
+        else: proof_broken.append('coqchk failed on %s: %s' % (prop.theorem_file, outc[-800:]))
     for name, ok, detail in prop.extra_obligations(tier):
         obligations += 1
         if ok: discharged += 1
@@ -254,6 +261,7 @@ def run_check(prop, tier='quick', seed=0, replay=None):
             'checker_cmd': 'cd /verif/coq && make %s.vo && coqc -Q theories LV %s  (Print Assumptions under every theorem)' % (prop.theorem_file[:-2], prop.theorem_file),
             'trusted_base': trusted,
             'theorems': th['theorems'],
+            'coqchk': chk_note,
             'evaluations': len(cases), 'distinct_nontrivial': len(nontriv),
             'rule': prop.rule,
             'samples': json.loads(json.dumps(samples, default=str)),
@@ -268,8 +276,10 @@ def run_check(prop, tier='quick', seed=0, replay=None):
         'wall_s': round(time.time() - t0, 2),
         'violations': len(violations),
     }
-    os.makedirs(EVID, exist_ok=True)
-    json.dump(ev, open(os.path.join(EVID, pid + '.json'), 'w'), indent=1, default=str)
+    if not os.environ.get('LOKI_VERIF_NO_EVIDENCE'):
+        # experiments against a scratch copy (tools/run_seeded.sh) must not overwrite the evidence of /repo
+        os.makedirs(EVID, exist_ok=True)
+        json.dump(ev, open(os.path.join(EVID, pid + '.json'), 'w'), indent=1, default=str)
 
     print('%s tier=%s seed=%s: %d/%d obligations discharged, %d cases (%d distinct non-trivial), %d model/impl disagreements, %d oracle failures (%d new) in %.1fs'
           % (pid, tier, seed, discharged, obligations, len(cases), len(nontriv), len(disagreements), len(oracle_fail), len(new_fail), time.time() - t0))
